@@ -540,7 +540,20 @@ func ByteMutate(t *rapid.T, b []byte) ([]byte, Mutation) {
 	if len(out) == 0 {
 		return []byte{byte(rapid.IntRange(0, 255).Draw(t, "byte"))}, Mutation{Op: "bytes/insert"}
 	}
-	switch rapid.IntRange(0, 4).Draw(t, "byteop") {
+	switch rapid.IntRange(0, 6).Draw(t, "byteop") {
+	case 5:
+		// the whole item inside another tag: self-described CBOR, a second COSE tag, a tag head in non-preferred form
+		pre := rapid.SampledFrom([][]byte{{0xd9, 0xd9, 0xf7}, {0xd2}, {0xd8, 0x62}, {0xd8, 0x12}, {0xc1}, {0xd9, 0x00, 0x12}}).Draw(t, "prefix")
+		return append(append([]byte{}, pre...), out...), Mutation{Op: "bytes/tag-prefix", Path: fmt.Sprintf("%x", pre)}
+	case 6:
+		// the tag head of the item re-spelt in a non-preferred width (d8 12 for d2, d9 00 62 for d8 62)
+		switch {
+		case out[0] == 0xd2:
+			return append([]byte{0xd8, 0x12}, out[1:]...), Mutation{Op: "bytes/tag-head-respelt"}
+		case len(out) > 1 && out[0] == 0xd8 && out[1] == 0x62:
+			return append([]byte{0xd9, 0x00, 0x62}, out[2:]...), Mutation{Op: "bytes/tag-head-respelt"}
+		}
+		return append([]byte{0xd9, 0xd9, 0xf7}, out...), Mutation{Op: "bytes/tag-prefix", Path: "d9d9f7"}
 	case 0:
 		i := rapid.IntRange(0, len(out)-1).Draw(t, "flip-at")
 		out[i] ^= 1 << rapid.IntRange(0, 7).Draw(t, "flip-bit")
